@@ -111,7 +111,11 @@ template <typename D> struct Prog {
   // description (all entries of the closed matrix), `big' the loosest (minimized constraints).  Soundness of a
   // step is judged as  f(small(arguments))  included in  big(result).
   Sys small(const D& d, size_t n) { D cp(d); (void) cp.is_empty(); return read(cp, n); }
-  Sys big(const D& d, size_t n) { D cp(d); return to_ref(cp.minimized_constraints(), n); }
+  // KF-C13-9: the strong reduction behind Octagonal_Shape::minimized_constraints() assumes exact halving: on integer-bounded octagons it
+  // changes the value (and can index out of bounds): under the finding the non-minimized constraints are read instead.
+  static bool int_octagon() { return TR::kind == 2 && !TR::rational && TR::extreme < 100; }
+  Constraint_System min_cs(const D& d) { if (int_octagon() && kf("KF-C13-9")) { c.excluded("KF-C13-9"); return d.constraints(); } return d.minimized_constraints(); }
+  Sys big(const D& d, size_t n) { D cp(d); return to_ref(min_cs(cp), n); }
 
   // ---- data generation -------------------------------------------------
   mpz_class gen_bound() {
@@ -213,7 +217,7 @@ template <typename D> struct Prog {
   // ---- verdict after a mutator --------------------------------------------
   // S: exact result as a union; mode: 'E' exact if EXACT, 'B' best if EXACT, 'S' sound only
   void settle(Obj& o, const char* op, const ref::Union& S, char mode) {
-    D cp(o.d); Sys got = EXACT ? (t.chance(50) ? read(cp, o.n) : to_ref(cp.minimized_constraints(), o.n)) : to_ref(cp.minimized_constraints(), o.n);
+    D cp(o.d); Sys got = EXACT ? (t.chance(50) ? read(cp, o.n) : to_ref(min_cs(cp), o.n)) : to_ref(min_cs(cp), o.n);
     std::string id = std::string("op.") + op;
     bool skip = !EXACT && kf9(S, o.n, &o.m);
     for (size_t i = 0; i < S.size() && !skip; ++i)
@@ -474,7 +478,7 @@ template <typename D> struct Prog {
       else if (r && !emp) { // a reported bound must be a sound bound
         Q got = mkq(mpz_class(num), mpz_class(dn)); c.check("q.optimize.sound", fin && (maxi ? got >= v : got <= v), [&] { return std::string(maxi ? "maximize(" : "minimize(") + e.str() + ") = " + got.get_str() + " is not a bound of the set [model " + show_sys(m) + "]"; }); }
       break; }
-    default: { Sys a = to_ref(d.minimized_constraints(), n), b = read(d, n); c.log << "  ? minimized_constraints\n";
+    default: { Sys a = to_ref(min_cs(d), n), b = read(d, n); c.log << "  ? minimized_constraints\n";
       if (!EXACT) c.check("q.minimized_constraints.sound", ref::included(m, a) && ref::included(m, b), [&] { return "a description of the object cuts points of its tightest description: minimized " + show_sys(a) + " full " + show_sys(b) + " [model " + show_sys(m) + "]"; });
       else c.check("q.minimized_constraints", ref::equal(a, b) && ref::equal(a, m), [&] { return "minimized_constraints() " + show_sys(a) + " and constraints() " + show_sys(b) + " differ, or an observer changed the value [model " + show_sys(m) + "]"; }); break; }
     }
@@ -507,7 +511,7 @@ template <typename D> struct Prog {
       if (!EXACT) c.check("final.value.sound", ref::included(o.m, big(o.d, o.n)), [&] { return "object lost points of its model: " + show_sys(now) + " vs " + show_sys(o.m); });
       else c.check("final.value", ref::equal(now, o.m), [&] { return "object no longer denotes its model: " + show_sys(now) + " vs " + show_sys(o.m); });
       if (EXACT) c.check("final.OK", o.d.OK(), "OK() false at the end");
-      if (EXACT) { D alt(o.n, UNIVERSE); Constraint_System cs = o.d.minimized_constraints(); alt.refine_with_constraints(cs);
+      if (EXACT) { D alt(o.n, UNIVERSE); Constraint_System cs = min_cs(o.d); alt.refine_with_constraints(cs);
         c.check("final.equal_sets_compare_equal", alt == o.d && alt.contains(o.d) && o.d.contains(alt), [&] { return "object differs from an equal set rebuilt from its minimized constraints " + show_sys(o.m); }); } }
     if (EXACT) { bool odd = false; for (size_t i = 0; i < pool.size(); ++i) if (pool[i].states.size() >= 2) odd = true; if (nt_steps >= 1 && odd) c.nt(); }
     else if (nt_steps >= 1) c.nt();
